@@ -27,7 +27,9 @@ EXCEPTIONS = {
 
 EPA_FACES = {"self.faces": {0: Fraction(1), 1: Fraction(1), 2: Fraction(1), 3: Fraction(0)},
              "closest_face": {0: Fraction(1), 1: Fraction(1), 2: Fraction(1), 3: Fraction(0)},
-             "faces.faces": {0: Fraction(1), 1: Fraction(1), 2: Fraction(1), 3: Fraction(0)}}
+             "faces.faces": {0: Fraction(1), 1: Fraction(1), 2: Fraction(1), 3: Fraction(0)},
+             # the two end points of a loose edge are vertices of the polytope (copied from face rows 0..2)
+             "self.loose_edges": {0: Fraction(1), 1: Fraction(1)}}
 
 
 def run_engine(idx, modules, face_arrays=None):
@@ -117,7 +119,38 @@ def r_tolunit(idx, rep, modules, rule="R-TOLUNIT", floor=10, face_arrays=None):
             continue
         scope = fk.rsplit(".", 1)[0] if name.startswith("self.") else fk
         agg.setdefault((scope, name), []).extend((d, fk, n) for d, n in uses)
+    # one tolerance handed on: `Polytope(simplex, max_faces, epsilon)` with `self.epsilon = epsilon` in the constructor makes the function's `epsilon` and the
+    # class's `self.epsilon` ONE symbol — their comparisons must agree in degree with each other as well
+    import ast as _ast
+    from ..core.index import ClassInfo as _CI
+    for m_ in idx.lib_modules():
+        if not any(m_.name.startswith(x) for x in modules):
+            continue
+        for f_ in m_.functions.values():
+            for c_ in _ast.walk(f_.node):
+                if not isinstance(c_, _ast.Call):
+                    continue
+                ci_ = idx.resolve_call(m_, c_, f_.cls)
+                if not isinstance(ci_, _CI):
+                    continue
+                init_ = ci_.methods.get("__init__")
+                if init_ is None:
+                    continue
+                ps_ = init_.params()[1:]
+                stores_ = {u(st.value): st.targets[0].attr for st in _ast.walk(init_.node) if isinstance(st, _ast.Assign) and len(st.targets) == 1
+                           and isinstance(st.targets[0], _ast.Attribute) and u(st.targets[0].value) == "self" and isinstance(st.value, _ast.Name)}
+                for p_, a_ in zip(ps_, c_.args):
+                    if isinstance(a_, _ast.Name) and p_ in stores_:
+                        k_from, k_to = (f_.key, a_.id), (ci_.key, "self." + stores_[p_])
+                        if k_to in agg:
+                            agg.setdefault(k_from, [])
+                            agg[k_from] = agg[k_from] + [x for x in agg[k_to] if x not in agg[k_from]]
+                            linked = agg.setdefault("__linked__", {})
+                            linked.setdefault(k_from, []).append(k_to)
+    linked = agg.pop("__linked__", {})
     for (scope, name), uses in sorted(agg.items()):
+        if not uses:
+            continue
         ds = sorted({d for d, _, _ in uses})
         key = "%s|%s" % (scope, name)
         if len(ds) > 1 and key in TOL_EXCEPTIONS:
